@@ -101,8 +101,9 @@ type dloc struct {
 	root   string
 	path   []int // projection path (index, arity pairs flattened: i0, n0, i1, n1 …)
 	kind   string
-	lo, hi string // sub-slice of a byte array (hi == "" : to the end); lo == "" : whole
-	ro     bool   // a package-level constant: never written
+	lo, hi string   // sub-slice of a byte array (hi == "" : to the end); lo == "" : whole
+	ro     bool     // a package-level constant: never written
+	names  []string // for each path step: "" (tuple projection) or the field name of a Lean structure
 }
 
 type dv struct {
@@ -122,6 +123,7 @@ var structFields = map[string][]struct{ name, kind string }{
 	"naf":   {{"pos", "bytes"}, {"neg", "bytes"}, {"start", "int"}, {"end", "int"}},
 	"epub":  {{"Curve", "curve"}, {"X", "big"}, {"Y", "big"}},
 	"sopt":  {{"Format", "int"}, {"Hash", "int"}},
+	"hmac":  {{"inner", "hash"}, {"outer", "hash"}, {"ipad", "bytes"}, {"opad", "bytes"}},
 	"ext": {{"Version", "bytes"}, {"Depth", "int"}, {"Fingerprint", "bytes"}, {"ChildNumber", "int"}, {"KeyData", "bytes"}, {"ChainCode", "bytes"},
 		{"curve", "curve"}},
 }
@@ -130,14 +132,19 @@ var leanType = map[string]string{"scalar": "Nat", "field": "Nat", "int": "Nat", 
 	"pub": "Nat × Nat", "priv": "Nat", "bytes": "Bytes", "bool": "Bool", "hmac": "HmacObj", "reader": "Reader",
 	"naf": "Bytes × Bytes × Nat × Nat", "big": "Nat", "curve": "Unit",
 	"ext": "Bytes × Nat × Bytes × Nat × Bytes × Bytes × Unit", "epub": "Unit × Nat × Nat",
-	"sopt": "Nat × Nat", "sopts": "Option (Nat × Nat)"}
+	"sopt": "Nat × Nat", "sopts": "Option (Nat × Nat)", "hash": "Bytes",
+	"ints": "List Nat", "obig": "Option Nat"}
+
+// recordKinds are Lean structures (field access by name, update by `{ x with f := v }`) rather than tuples
+var recordKinds = map[string]bool{"hmac": true}
 
 // valueArgs: a bytes-valued argument is parenthesised when it is not atomic
 
 var zeroOf = map[string]string{"scalar": "0", "field": "0", "int": "0", "point": "((0, 0, 0) : Jac)", "sig": "((0, 0, 0) : Nat × Nat × Nat)",
 	"ssig": "((0, 0) : Nat × Nat)", "pub": "((0, 0) : Nat × Nat)", "priv": "0", "bool": "false",
 	"naf": "((List.replicate 33 (0 : UInt8), List.replicate 33 (0 : UInt8), 0, 0) : Bytes × Bytes × Nat × Nat)", "big": "0",
-	"sopt": "((0, 0) : Nat × Nat)"}
+	"sopt": "((0, 0) : Nat × Nat)", "hash": "([] : Bytes)",
+	"hmac": "({ inner := [], outer := [], ipad := List.replicate 64 0, opad := List.replicate 64 0 } : HmacObj)"}
 
 func proj(term string, i, n int) string {
 	if n == 1 {
@@ -157,10 +164,21 @@ func proj(term string, i, n int) string {
 	return s + ".1"
 }
 
+func (l *dloc) stepName(k int) string {
+	if k/2 < len(l.names) {
+		return l.names[k/2]
+	}
+	return ""
+}
+
 func (l *dloc) read() string {
 	t := l.root
 	for k := 0; k+1 < len(l.path); k += 2 {
-		t = proj(t, l.path[k], l.path[k+1])
+		if n := l.stepName(k); n != "" {
+			t = t + "." + n
+		} else {
+			t = proj(t, l.path[k], l.path[k+1])
+		}
 	}
 	if l.lo != "" {
 		if l.hi == "" {
@@ -174,11 +192,18 @@ func (l *dloc) read() string {
 // rebuilt value of the root when the location receives v
 func (l *dloc) rebuild(v string) string {
 	var rec func(cur string, path []int) string
+	step := 0
 	rec = func(cur string, path []int) string {
 		if len(path) == 0 {
 			return v
 		}
 		i, n := path[0], path[1]
+		if name := l.stepName(step * 2); name != "" {
+			step++
+			inner := rec(cur+"."+name, path[2:])
+			return "{ " + cur + " with " + name + " := " + inner + " }"
+		}
+		step++
 		if n == 1 {
 			return rec(cur, path[2:])
 		}
@@ -256,6 +281,13 @@ var d8entries = []d8entry{
 	{"", "ModNScalar.InverseValNonConst", "scalarInverseValNonConst", true, "", "", "", "", "s", ""},
 	{"", "ModNScalar.InverseNonConst", "scalarInverseNonConst", true, "", "", "", "", "s", ""},
 	{"", "FieldVal.SetByteSlice", "fieldSetByteSliceGen", true, "", "", "", "", "f", ""},
+	// ninth tranche: the resettable HMAC-SHA256 object (model: HmacObj, a Lean structure)
+	{"", "hmacsha256.Write", "hmacWrite", true, "", "", "", "", "h", ""},
+	{"", "hmacsha256.initKey", "hmacInitKey", true, "", "", "", "", "h", ""},
+	{"", "hmacsha256.ResetKey", "hmacResetKey", true, "", "", "", "", "h", ""},
+	{"", "hmacsha256.Reset", "hmacReset", true, "", "", "", "", "h", ""},
+	{"", "hmacsha256.Sum", "hmacSum", true, "", "", "", "", "h", ""},
+	{"", "newHMACSHA256", "hmacNewGen", true, "", "", "", "", "", ""},
 	// fifth tranche: extended keys
 	{"ecckd", "KeyVersion.IsPrivate", "versionIsPrivateGen", true, "", "", "", "", "", ""},
 	{"ecckd", "KeyVersion.ToPublic", "versionToPublicGen", true, "", "", "", "", "", ""},
@@ -267,7 +299,11 @@ var d8entries = []d8entry{
 	{"ecckd", "ExtendedKey.ChildWithIL", "childWithILGen", false, "BipErr", "(O : Oracles)", "O", "", "", ""},
 	// eighth tranche: thin exported front ends
 	{"ecckd", "ExtendedKey.Child", "childGen", false, "BipErr", "(O : Oracles)", "O", "", "", ""},
+	{"ecckd", "ExtendedKey.DeriveWithIL", "deriveWithILGen", false, "BipErr", "(O : Oracles)", "O", "", "", ""},
+	{"ecckd", "ExtendedKey.Derive", "deriveGen", false, "BipErr", "(O : Oracles)", "O", "", "", ""},
+	{"schnorr", "Signature.Verify", "schnorrVerifyBool", true, "", "(B : Bytes → Bytes)", "B", "", "", ""},
 	{"ecckd", "FromSeed", "fromSeedGen", false, "BipErr", "(O : Oracles)", "O", "", "", ""},
+	{"ecckd", "FromBitcoinSeed", "fromBitcoinSeedGen", false, "BipErr", "(O : Oracles)", "O", "", "", ""},
 	{"ecckd", "ExtendedKey.Public", "publicGen", false, "BipErr", "", "", "", "", ""},
 	{"", "PrivateKey.ECDH", "ecdhMethod", false, "Unit", "", "", "", "", ""},
 	{"", "Signature.Export", "exportGen", true, "", "", "", "", "", ""},
@@ -278,30 +314,32 @@ var d8entries = []d8entry{
 }
 
 type d8 struct {
-	pkgs    []*Pkg
-	p       *Pkg
-	err     error
-	fn      string
-	ent     *d8entry
-	env     map[types.Object]*dloc
-	known   map[types.Object]bool // statically known bools / err != nil
-	scope   []string              // Lean variables in scope (root names), in order of introduction
-	stype   map[string]string     // their Lean types
-	wstack  []map[string]bool
-	ntmp    int
-	aux     []string // auxiliary top-level definitions (loops) emitted before the entry
-	loopK   func(post func() *dnode) *dnode
-	cont    func() *dnode // translation of `continue`
-	results *types.Tuple
-	retK    func(vals []*dv) *dnode // inlined callee: what `return` does
-	loopVar map[types.Object]string // for-i loops: index variable → bound expression it stays below
-	pv      map[string]string       // generated package-level byte constants (shared by all entries)
-	errTerm map[types.Object]string // error variables holding a run-time error value
-	reader  string                  // root of the io.Reader parameter (its final state is part of every result)
-	stubOK  bool                    // all parameters were understood (a typed stub can be emitted if the body fails)
-	inFold  int                     // depth of fold bodies being translated (no early exit possible there)
-	facts   map[string]bool         // "a≥b": known order facts between integer terms (dominating guards, max idiom)
-	lenDef  map[string]string       // Lean variable defined as `<bytes term>.length`
+	pkgs      []*Pkg
+	p         *Pkg
+	err       error
+	fn        string
+	ent       *d8entry
+	env       map[types.Object]*dloc
+	known     map[types.Object]bool // statically known bools / err != nil
+	scope     []string              // Lean variables in scope (root names), in order of introduction
+	stype     map[string]string     // their Lean types
+	wstack    []map[string]bool
+	ntmp      int
+	aux       []string // auxiliary top-level definitions (loops) emitted before the entry
+	loopK     func(post func() *dnode) *dnode
+	cont      func() *dnode // translation of `continue`
+	results   *types.Tuple
+	retK      func(vals []*dv) *dnode // inlined callee: what `return` does
+	loopVar   map[types.Object]string // for-i loops: index variable → bound expression it stays below
+	pv        map[string]string       // generated package-level byte constants (shared by all entries)
+	errTerm   map[types.Object]string // error variables holding a run-time error value
+	reader    string                  // root of the io.Reader parameter (its final state is part of every result)
+	optResult map[int]bool            // *big.Int results returned from a variable declared `var x *big.Int` (may be nil)
+	extCopies map[string]bool         // *ExtendedKey variables translated as values (no field writes allowed through them)
+	stubOK    bool                    // all parameters were understood (a typed stub can be emitted if the body fails)
+	inFold    int                     // depth of fold bodies being translated (no early exit possible there)
+	facts     map[string]bool         // "a≥b": known order facts between integer terms (dominating guards, max idiom)
+	lenDef    map[string]string       // Lean variable defined as `<bytes term>.length`
 }
 
 func (d *d8) fail(n ast.Node, format string, a ...any) {
@@ -405,6 +443,10 @@ func (d *d8) kindOf(t types.Type) (string, int) {
 		return "err", 0
 	case "hmacsha256":
 		return "hmac", 0
+	case "Hash":
+		if pk == "hash" {
+			return "hash", 0 // hash.Hash (always SHA-256 here): the bytes written since the last Reset
+		}
 	case "Reader":
 		if pk == "io" {
 			return "reader", 0
@@ -429,6 +471,9 @@ func (d *d8) kindOf(t types.Type) (string, int) {
 	case *types.Slice:
 		if isByteT(u.Elem()) {
 			return "bytes", 0
+		}
+		if b, ok := u.Elem().Underlying().(*types.Basic); ok && b.Kind() == types.Uint32 {
+			return "ints", 0
 		}
 	case *types.Array:
 		if isByteT(u.Elem()) {
@@ -540,7 +585,16 @@ func (d *d8) lvalue(e ast.Expr, pre *[]*dnode) *dloc {
 		}
 		for i, f := range fs {
 			if f.name == x.Sel.Name {
-				return &dloc{root: base.root, path: append(append([]int{}, base.path...), i, len(fs)), kind: f.kind}
+				names := append([]string{}, base.names...)
+				for len(names) < len(base.path)/2 {
+					names = append(names, "")
+				}
+				if recordKinds[base.kind] {
+					names = append(names, f.name)
+				} else {
+					names = append(names, "")
+				}
+				return &dloc{root: base.root, path: append(append([]int{}, base.path...), i, len(fs)), kind: f.kind, names: names}
 			}
 		}
 	case *ast.CompositeLit:
@@ -570,7 +624,7 @@ func (d *d8) lvalue(e ast.Expr, pre *[]*dnode) *dloc {
 		if x.High != nil {
 			hi = d.intTerm(x.High, pre)
 		}
-		return &dloc{root: base.root, path: base.path, kind: "bytes", lo: lo, hi: hi}
+		return &dloc{root: base.root, path: base.path, names: base.names, kind: "bytes", lo: lo, hi: hi}
 	case *ast.CallExpr:
 		if id, ok := x.Fun.(*ast.Ident); ok && id.Name == "new" && len(x.Args) == 1 {
 			k, _ := d.kindOf(d.p.info.Types[x.Args[0]].Type)
@@ -592,6 +646,9 @@ func (d *d8) lvalue(e ast.Expr, pre *[]*dnode) *dloc {
 			d.declare(nm, v.kind)
 			return &dloc{root: nm, kind: v.kind}
 		}
+	}
+	if se, ok := e.(*ast.SelectorExpr); ok {
+		d.fail(e, "selector .%s is not a location of the T8 subset", se.Sel.Name)
 	}
 	d.fail(e, "expression %T is not a location of the T8 subset", e)
 	return &dloc{root: "0", kind: "int"}
@@ -698,6 +755,10 @@ func (d *d8) pkgBigConst(name string, o *types.Var) string {
 }
 
 func (d *d8) write(l *dloc, v string, pre *[]*dnode) {
+	if d.extCopies[l.root] && len(l.path) > 0 {
+		d.fail(d8nil(), "field write through an *ExtendedKey variable that was translated as a value")
+		return
+	}
 	if l.ro {
 		d.fail(d8nil(), "write to the package-level constant %s", l.root)
 		return
@@ -718,7 +779,7 @@ func d8nil() ast.Node          { return nilNode{} }
 
 // writeBytesAt: store v (a byte string) at the start of the (sub-slice) location, n = number of bytes written
 func (d *d8) writeBytesAt(l *dloc, v, n string, pre *[]*dnode) {
-	base := &dloc{root: l.root, path: l.path, kind: "bytes"}
+	base := &dloc{root: l.root, path: l.path, names: l.names, kind: "bytes"}
 	cur := base.read()
 	lo := l.lo
 	if lo == "" {
@@ -950,7 +1011,30 @@ func (d *d8) binary(x *ast.BinaryExpr, pre *[]*dnode) *dv {
 		if t := d.cmpPattern(x, pre); t != "" {
 			return &dv{kind: "bool", term: t}
 		}
+		if call, ok := x.X.(*ast.CallExpr); ok {
+			if nl, ok := x.Y.(*ast.Ident); ok && nl.Name == "nil" {
+				if fn, _ := d.callee(call); fn != nil && d.isFallibleEntry(fn) && fn.Type().(*types.Signature).Results().Len() == 1 {
+					// entry(...) == nil : the entry returns only an error
+					v := d.expr(call, pre)
+					t, f := "true", "false"
+					if x.Op == token.NEQ {
+						t, f = f, t
+					}
+					return &dv{kind: "bool", term: "(match " + v.term + " with | .ok _ => " + t + " | _ => " + f + ")"}
+				}
+			}
+		}
 		l, r := d.expr(x.X, pre), d.expr(x.Y, pre)
+		if (l.kind == "obig" && r.kind == "nil") || (r.kind == "obig" && l.kind == "nil") {
+			e := l
+			if l.kind == "nil" {
+				e = r
+			}
+			if x.Op == token.EQL {
+				return &dv{kind: "bool", term: e.term + ".isNone"}
+			}
+			return &dv{kind: "bool", term: e.term + ".isSome"}
+		}
 		if l.kind == "err" || r.kind == "err" || l.kind == "nil" || r.kind == "nil" {
 			e := l
 			if l.kind == "nil" {
@@ -1162,6 +1246,8 @@ func (d *d8) call(x *ast.CallExpr, pre *[]*dnode) *dv {
 					return &dv{kind: "bool", term: "(" + d.expr(x.Args[0], pre).term + " == " + d.expr(x.Args[1], pre).term + ")"}
 				case "secp256k1.S256":
 					return &dv{kind: "curve", term: "()"}
+				case "sha256.New":
+					return &dv{kind: "hash", term: "([] : Bytes)"}
 				}
 			}
 		}
@@ -1173,6 +1259,16 @@ func (d *d8) call(x *ast.CallExpr, pre *[]*dnode) *dv {
 		// binary.BigEndian.Uint32(b)
 		if inner, ok := sel.X.(*ast.SelectorExpr); ok && sel.Sel.Name == "Uint32" && inner.Sel.Name == "BigEndian" {
 			return &dv{kind: "int", term: "beNat (" + d.expr(x.Args[0], pre).term + ".take 4)", width: 32}
+		}
+	}
+	if at, ok := x.Fun.(*ast.ArrayType); ok && at.Len == nil && len(x.Args) == 1 {
+		// []byte("constant string")
+		if tv, ok := d.p.info.Types[x.Args[0]]; ok && tv.Value != nil && tv.Value.Kind() == constant.String {
+			var es []string
+			for _, b := range []byte(constant.StringVal(tv.Value)) {
+				es = append(es, fmt.Sprint(b))
+			}
+			return &dv{kind: "bytes", term: "([" + strings.Join(es, ", ") + "] : Bytes)"}
 		}
 	}
 	if id, ok := x.Fun.(*ast.Ident); ok && id.Name == "s256BytePoints" && len(x.Args) == 0 {
@@ -1191,10 +1287,13 @@ func (d *d8) call(x *ast.CallExpr, pre *[]*dnode) *dv {
 		name = tn + "." + fn.Name()
 		rk, _ = d.kindOf(sig.Recv().Type())
 	}
+	if rk == "" && recvX != nil {
+		rk, _ = d.kindOf(d.p.info.Types[recvX].Type) // an interface method: the kind of the object it is called on
+	}
 	arg := func(i int) *dv { return d.expr(x.Args[i], pre) }
 	argLoc := func(i int) *dloc { return d.lvalue(x.Args[i], pre) }
 	var recv *dloc
-	if recvX != nil && (rk == "scalar" || rk == "field" || rk == "point" || rk == "hmac" || rk == "naf" || rk == "big") {
+	if recvX != nil && (rk == "scalar" || rk == "field" || rk == "point" || rk == "hmac" || rk == "naf" || rk == "big" || rk == "hash" || rk == "obig") {
 		recv = d.lvalue(recvX, pre)
 	}
 	set := func(l *dloc, v string) *dv {
@@ -1308,19 +1407,47 @@ func (d *d8) call(x *ast.CallExpr, pre *[]*dnode) *dv {
 		return &dv{kind: "bool", term: "(isOnCurveM " + arg(0).term + " " + arg(1).term + ")"}
 	case "s256BytePoints":
 		return &dv{kind: "table"}
+	// ---- hash.Hash (SHA-256): the log of bytes written since the last Reset
+	case "Hash.Write", "Writer.Write":
+		if rk == "hash" {
+			set(recv, recv.read()+" ++ "+bytesArg(0))
+			return &dv{kind: "unit"}
+		}
+	case "Hash.Reset":
+		set(recv, "([] : Bytes)")
+		return &dv{kind: "unit"}
+	case "Hash.Sum":
+		if a := arg(0); a.kind != "nil" {
+			d.fail(x, "Sum with a prefix")
+		}
+		return &dv{kind: "bytes", term: "(sha256 " + recv.read() + ")"}
 	// ---- the resettable HMAC-SHA256 object of nonce.go (model: Secp.Model.HmacObj)
 	case "newHMACSHA256":
-		return &dv{kind: "hmac", term: "hmacNew " + bytesArg(0)}
+		if !d.inHmacTranche() {
+			return &dv{kind: "hmac", term: "hmacNew " + bytesArg(0)}
+		}
 	case "hmacsha256.Write":
+		if d.inHmacTranche() {
+			break
+		}
 		set(recv, recv.read()+".write "+bytesArg(0))
 		return &dv{kind: "unit"}
 	case "hmacsha256.Reset":
+		if d.inHmacTranche() {
+			break
+		}
 		set(recv, recv.read()+".reset")
 		return &dv{kind: "unit"}
 	case "hmacsha256.ResetKey":
+		if d.inHmacTranche() {
+			break
+		}
 		set(recv, recv.read()+".resetKey "+bytesArg(0))
 		return &dv{kind: "unit"}
 	case "hmacsha256.Sum":
+		if d.inHmacTranche() {
+			break
+		}
 		if len(recv.path) != 0 {
 			d.fail(x, "Sum on a nested hasher")
 		}
@@ -1337,6 +1464,15 @@ func (d *d8) call(x *ast.CallExpr, pre *[]*dnode) *dv {
 	case "Int.SetBytes":
 		return set(recv, "beNat "+bytesArg(0))
 	case "Int.Mod":
+		if recv.kind == "obig" {
+			a0 := arg(0)
+			t0 := a0.term
+			if a0.kind == "obig" {
+				t0 = "(" + t0 + ".getD 0)"
+			}
+			d.write(recv, "some ("+t0+" % "+arg(1).term+")", pre)
+			return &dv{kind: "obig", term: recv.read(), loc: recv}
+		}
 		return set(recv, arg(0).term+" % "+arg(1).term)
 	case "FieldVal.SetByteSlice":
 		b := bytesArg(0)
@@ -1345,6 +1481,20 @@ func (d *d8) call(x *ast.CallExpr, pre *[]*dnode) *dv {
 	case "rmd160sha256":
 		return &dv{kind: "bytes", term: "(O.hash160 " + bytesArg(0) + ")"}
 	case "Int.Add":
+		if recv.kind == "obig" { // x.Add(x, y) on a nil-able variable: only reached where it is non-nil (a nil receiver would panic)
+			a0 := arg(0)
+			t0 := a0.term
+			if a0.kind == "obig" {
+				t0 = "(" + t0 + ".getD 0)"
+			}
+			a1 := arg(1)
+			t1 := a1.term
+			if a1.kind == "obig" {
+				t1 = "(" + t1 + ".getD 0)"
+			}
+			d.write(recv, "some ("+t0+" + "+t1+")", pre)
+			return &dv{kind: "obig", term: recv.read(), loc: recv}
+		}
 		return set(recv, arg(0).term+" + "+arg(1).term)
 	case "Int.And":
 		return set(recv, arg(0).term+" &&& "+arg(1).term)
@@ -1408,10 +1558,15 @@ func (d *d8) call(x *ast.CallExpr, pre *[]*dnode) *dv {
 			if ent.extraA != "" {
 				args = append(args, ent.extraA)
 			}
-			if recvX != nil && rk != "curve" {
-				args = append(args, d.expr(recvX, pre).term)
-			}
 			var outLocs []*dloc
+			if recvX != nil && rk != "curve" {
+				args = append(args, "("+d.expr(recvX, pre).term+")")
+				if ent.out != "" {
+					if _, fd := d.findFunc(fn); fd != nil && fd.Recv != nil && len(fd.Recv.List[0].Names) > 0 && fd.Recv.List[0].Names[0].Name == ent.out {
+						outLocs = append(outLocs, d.lvalue(recvX, pre)) // the receiver is mutated: its final value comes back
+					}
+				}
+			}
 			for i := range x.Args {
 				pt := sig.Params().At(i).Type()
 				k, _ := d.kindOf(pt)
@@ -1426,6 +1581,20 @@ func (d *d8) call(x *ast.CallExpr, pre *[]*dnode) *dv {
 			}
 			term := ent.lean + " " + strings.Join(args, " ")
 			if len(outLocs) == 1 {
+				if ent.total && sig.Results().Len() == 1 {
+					if _, isPtr := sig.Results().At(0).Type().(*types.Pointer); !isPtr {
+						// value result + mutated receiver: the entry returns the pair
+						k, w := d.kindOf(sig.Results().At(0).Type())
+						t := d.tmp("res")
+						if len(outLocs[0].path) != 0 {
+							d.fail(x, "value-returning mutator on a nested object")
+						}
+						*pre = append(*pre, &dnode{kind: "let", name: "(" + t + ", " + outLocs[0].root + ")", term: term})
+						d.declare(t, k)
+						d.wrote(outLocs[0].root)
+						return &dv{kind: k, term: t, width: w}
+					}
+				}
 				set(outLocs[0], term)
 				return &dv{kind: "unit"}
 			}
@@ -1532,8 +1701,15 @@ func (d *d8) simple(s ast.Stmt, pre *[]*dnode) bool {
 			for _, nm := range vs.Names {
 				o := d.p.info.Defs[nm]
 				k, _ := d.kindOf(o.Type())
+				if k == "err" { // var err error: nil until assigned
+					d.env[o] = &dloc{root: "?err", kind: "err"}
+					d.known[o] = false
+					continue
+				}
 				z, ok := zeroOf[k]
-				if _, isPtr := o.Type().(*types.Pointer); isPtr && k != "sopt" {
+				if _, isPtr := o.Type().(*types.Pointer); isPtr && k == "big" {
+					k, z, ok = "obig", "(none : Option Nat)", true // a *big.Int variable that starts nil
+				} else if isPtr && k != "sopt" {
 					ok = false // a nil pointer variable
 				}
 				if k == "bytes" {
@@ -1591,6 +1767,20 @@ func (d *d8) simple(s ast.Stmt, pre *[]*dnode) bool {
 						}
 					}
 					if isPtr {
+						if k, _ := d.kindOf(rt); k == "ext" {
+							if _, fromIdent := st.Rhs[0].(*ast.Ident); fromIdent {
+								// cur := k on an *ExtendedKey that is later re-pointed (cur = child): extended keys are never written
+								// through such a variable (a field write through it fails closed below), so it is a value
+								src := d.lvalue(st.Rhs[0], pre)
+								name := d.fresh(id.Name)
+								*pre = append(*pre, &dnode{kind: "let", name: name, term: src.read()})
+								d.declare(name, "ext")
+								d.wrote(name)
+								d.env[o] = &dloc{root: name, kind: "ext", ro: false}
+								d.extCopies[name] = true
+								return false
+							}
+						}
 						d.env[o] = d.lvalue(st.Rhs[0], pre) // pointer variable: an alias
 						return false
 					}
@@ -1623,6 +1813,20 @@ func (d *d8) simple(s ast.Stmt, pre *[]*dnode) bool {
 				if k, _ := d.kindOf(d.p.info.Types[st.Lhs[0]].Type); k == "curve" && !isId {
 					d.write(d.lvalue(st.Lhs[0], pre), "()", pre) // the curve object carries no data
 					return false
+				}
+				if isId {
+					if l, ok := d.env[d.obj(id)]; ok && l.kind == "obig" && st.Tok == token.ASSIGN {
+						v := d.expr(st.Rhs[0], pre)
+						switch v.kind {
+						case "big":
+							d.write(l, "some ("+v.term+")", pre)
+							return false
+						case "obig":
+							d.write(l, v.term, pre)
+							return false
+						}
+						return true
+					}
 				}
 				if k, _ := d.kindOf(d.p.info.Types[st.Lhs[0]].Type); k == "sopt" && isPtr {
 					// *SignOptions is read-only data here: re-pointing is copying the value
@@ -1667,7 +1871,7 @@ func (d *d8) simple(s ast.Stmt, pre *[]*dnode) bool {
 					if v.kind != "int" || v.width != 8 {
 						return true
 					}
-					d.writeBytesAt(&dloc{root: base.root, path: base.path, kind: "bytes", lo: c, hi: fmt.Sprint(ci + 1)}, "[UInt8.ofNat "+v.term+"]", "1", pre)
+					d.writeBytesAt(&dloc{root: base.root, path: base.path, names: base.names, kind: "bytes", lo: c, hi: fmt.Sprint(ci + 1)}, "[UInt8.ofNat "+v.term+"]", "1", pre)
 					return false
 				}
 				v := d.expr(st.Rhs[0], pre)
@@ -1684,6 +1888,21 @@ func (d *d8) simple(s ast.Stmt, pre *[]*dnode) bool {
 				}
 				return false
 			case token.ADD_ASSIGN, token.XOR_ASSIGN, token.OR_ASSIGN, token.AND_ASSIGN:
+				if ix, ok := st.Lhs[0].(*ast.IndexExpr); ok {
+					base := d.lvalue(ix.X, pre)
+					if base.kind != "bytes" || base.lo != "" {
+						return true
+					}
+					i := d.intTerm(ix.Index, pre)
+					r := d.intTerm(st.Rhs[0], pre)
+					op := map[token.Token]string{token.ADD_ASSIGN: "+", token.XOR_ASSIGN: "^^^", token.OR_ASSIGN: "|||", token.AND_ASSIGN: "&&&"}[st.Tok]
+					t := "((" + base.read() + ".getD " + i + " 0).toNat " + op + " " + r + ")"
+					if st.Tok == token.ADD_ASSIGN {
+						t = wrapW(t, 8)
+					}
+					d.write(base, "("+base.read()+".set "+i+" (UInt8.ofNat "+t+"))", pre)
+					return false
+				}
 				l := d.lvalue(st.Lhs[0], pre)
 				_, w := d.kindOf(d.p.info.Types[st.Lhs[0]].Type)
 				r := d.intTerm(st.Rhs[0], pre)
@@ -2037,6 +2256,17 @@ func (d *d8) retNode(st *ast.ReturnStmt, pre *[]*dnode) *dnode {
 				return d.rt(".err ." + k)
 			}
 		}
+		if call, ok := last.(*ast.CallExpr); ok && len(call.Args) >= 2 {
+			if sel, ok := call.Fun.(*ast.SelectorExpr); ok && sel.Sel.Name == "Errorf" {
+				if lit, ok := call.Args[0].(*ast.BasicLit); ok && strings.Contains(lit.Value, "%w") {
+					if id, ok := call.Args[len(call.Args)-1].(*ast.Ident); ok {
+						if t, ok := d.errTerm[d.obj(id)]; ok {
+							return d.rt(".err " + t) // a wrapped error: the same kind with a longer message
+						}
+					}
+				}
+			}
+		}
 		if id, ok := last.(*ast.Ident); ok {
 			if t, ok := d.errTerm[d.obj(id)]; ok {
 				return d.rt(".err " + t)
@@ -2095,6 +2325,82 @@ func (d *d8) stmts(list []ast.Stmt, k func() *dnode) *dnode {
 		return d.ifStmt(st, next)
 	case *ast.ForStmt:
 		return d.forStmt(st, next)
+	case *ast.RangeStmt:
+		// for i := range a, a an ARRAY (constant length), index only, no early exit → fold over List.range n
+		if xk, _ := d.kindOf(d.p.info.Types[st.X].Type); xk == "ints" {
+			// for _, v := range xs (a []uint32) with early exits: a top-level function recursive on the list; what
+			// follows the loop is translated inside it (the `[]` arm)
+			kid, kIsId := st.Key.(*ast.Ident)
+			vid, vIsId := st.Value.(*ast.Ident)
+			if !kIsId || kid.Name != "_" || !vIsId || st.Tok != token.DEFINE {
+				d.fail(st, "range over a slice: form")
+				break
+			}
+			xs := d.expr(st.X, &pre)
+			params := append([]string{}, d.scope...)
+			var psig []string
+			for _, p := range params {
+				psig = append(psig, fmt.Sprintf("(%s : %s)", p, d.stype[p]))
+			}
+			aux := d.ent.lean + "_loop"
+			e, kn, sc, stp := d.snapshot()
+			au := d.saveAux()
+			d.declare(vid.Name, "int")
+			d.env[d.p.info.Defs[vid]] = &dloc{root: vid.Name, kind: "int"}
+			callNext := func() *dnode {
+				return d.rt0(aux + " " + strings.Join(append(extraArgs(d.ent), params...), " ") + " rest_")
+			}
+			savedCont := d.cont
+			d.cont = callNext
+			body := d.stmts(st.Body.List, callNext)
+			d.cont = savedCont
+			d.restore(e, kn, sc, stp)
+			d.facts, d.lenDef = au.facts, au.lenDef
+			after := d.branch(nil, next)
+			var sb strings.Builder
+			fmt.Fprintf(&sb, "def %s %s %s : List Nat → %s\n  | [] => (\n", aux, d.ent.extra, strings.Join(psig, " "), d.retType())
+			after.print(&sb, "    ")
+			fmt.Fprintf(&sb, "  )\n  | %s :: rest_ => (\n", vid.Name)
+			body.print(&sb, "    ")
+			sb.WriteString("  )\n")
+			d.aux = append(d.aux, sb.String())
+			return chain(pre, d.rt0(fmt.Sprintf("%s %s %s", aux, strings.Join(append(extraArgs(d.ent), params...), " "), xs.term)))
+		}
+		arr, isArr := d.p.info.Types[st.X].Type.Underlying().(*types.Array)
+		id, isId := st.Key.(*ast.Ident)
+		if !isArr || !isId || st.Value != nil || st.Tok != token.DEFINE || hasTerminator(st.Body.List) {
+			d.fail(st, "range form outside the T8 subset")
+			break
+		}
+		o := d.p.info.Defs[id]
+		e, kn, sc, stp := d.snapshot()
+		aux := d.saveAux()
+		d.env[o] = &dloc{root: id.Name, kind: "int"}
+		d.stype[id.Name] = "Nat"
+		d.loopVar[o] = fmt.Sprint(arr.Len())
+		W := &[]string{}
+		d.wstack = append(d.wstack, map[string]bool{})
+		d.inFold++
+		body := d.stmts(st.Body.List, func() *dnode { return &dnode{kind: "tuple", names: W} })
+		d.inFold--
+		d.restore(e, kn, sc, stp)
+		d.facts, d.lenDef = aux.facts, aux.lenDef
+		delete(d.loopVar, o)
+		w := d.wstack[len(d.wstack)-1]
+		d.wstack = d.wstack[:len(d.wstack)-1]
+		for n := range w {
+			if _, live := d.stype[n]; live {
+				*W = append(*W, n)
+			}
+		}
+		sort.Strings(*W)
+		for _, n := range *W {
+			d.wrote(n)
+		}
+		if len(*W) == 0 {
+			return next()
+		}
+		return &dnode{kind: "fold", names: W, term: fmt.Sprintf("(List.range (%d))", arr.Len()), name: id.Name, a: body, b: next()}
 	case *ast.SwitchStmt:
 		// switch tag { case a, b: … } without fallthrough → an if / else-if chain on equality with the tag
 		if st.Init != nil || st.Tag == nil {
@@ -2164,8 +2470,22 @@ func (d *d8) stmts(list []ast.Stmt, k func() *dnode) *dnode {
 
 // fallibleAssign: `x, err := entry(...)`, `x, ok := entry(...)`, `x := entry(...)`, `k := NonceRFC6979(...)`
 func (d *d8) fallibleAssign(st *ast.AssignStmt, next func() *dnode) *dnode {
-	if len(st.Rhs) != 1 || st.Tok != token.DEFINE {
+	if len(st.Rhs) != 1 || (st.Tok != token.DEFINE && st.Tok != token.ASSIGN) {
 		return nil
+	}
+	if st.Tok == token.ASSIGN {
+		for _, l := range st.Lhs {
+			if _, ok := l.(*ast.Ident); !ok {
+				return nil
+			}
+		}
+		c, ok := st.Rhs[0].(*ast.CallExpr)
+		if !ok {
+			return nil
+		}
+		if fn, _ := d.callee(c); fn == nil || !d.isFallibleEntry(fn) {
+			return nil // plain assignments keep their old path (and their old numbering of temporaries)
+		}
 	}
 	call, ok := st.Rhs[0].(*ast.CallExpr)
 	if !ok {
@@ -2321,6 +2641,7 @@ func (d *d8) fallibleAssign(st *ast.AssignStmt, next func() *dnode) *dnode {
 	e0, kn0, sc0, st0 := d.snapshot()
 	// ok arm
 	var names []string
+	var obigFix [][2]string
 	for i := 0; i < nval; i++ {
 		id := st.Lhs[i].(*ast.Ident)
 		var t types.Type
@@ -2332,6 +2653,25 @@ func (d *d8) fallibleAssign(st *ast.AssignStmt, next func() *dnode) *dnode {
 		kk, _ := d.kindOf(t)
 		if id.Name == "_" {
 			names = append(names, "_")
+			continue
+		}
+		if st.Tok == token.ASSIGN || d.p.info.Defs[id] == nil {
+			// an existing variable is assigned: re-bind its own Lean name
+			l := d.env[d.obj(id)]
+			if l == nil || len(l.path) != 0 || l.ro {
+				d.fail(st, "assignment of a call result to %s", id.Name)
+				return nil
+			}
+			if l.kind == "obig" && kk == "big" {
+				t := d.tmp(id.Name + "_")
+				names = append(names, t)
+				d.declare(t, "big")
+				obigFix = append(obigFix, [2]string{l.root, t})
+				d.wrote(l.root)
+				continue
+			}
+			names = append(names, l.root)
+			d.wrote(l.root)
 			continue
 		}
 		name := d.fresh(id.Name)
@@ -2351,12 +2691,15 @@ func (d *d8) fallibleAssign(st *ast.AssignStmt, next func() *dnode) *dnode {
 		}
 	}
 	okBody := next()
+	for _, f := range obigFix {
+		okBody = &dnode{kind: "let", name: f[0], term: "some " + f[1], a: okBody}
+	}
 	d.restore(e0, kn0, sc0, st0)
 	// err arm: the value variables hold nil / zero values that the code does not read when the flag says failure
 	e1, kn1, sc1, st1 := d.snapshot()
 	for i := 0; i < nval; i++ {
 		id := st.Lhs[i].(*ast.Ident)
-		if id.Name != "_" {
+		if id.Name != "_" && d.p.info.Defs[id] != nil && st.Tok == token.DEFINE {
 			d.env[d.p.info.Defs[id]] = &dloc{root: "?unset", kind: "nil"}
 		}
 	}
@@ -2771,6 +3114,11 @@ func (d *d8) rt(term string) *dnode {
 // rt0: a tail call of the entry's own loop function (its result already carries the reader)
 func (d *d8) rt0(term string) *dnode { return &dnode{kind: "ret", term: term} }
 
+// inHmacTranche: the entry being translated is one of the hmacsha256 methods themselves
+func (d *d8) inHmacTranche() bool {
+	return strings.HasPrefix(d.ent.key, "hmacsha256.") || d.ent.key == "newHMACSHA256"
+}
+
 func (d *d8) rtTerm(term string) string {
 	if d.reader != "" {
 		return "(" + term + ", " + d.reader + ")"
@@ -2871,6 +3219,9 @@ func (d *d8) retType() string {
 	var kinds []string
 	for i := 0; i < n; i++ {
 		k, _ := d.kindOf(d.results.At(i).Type())
+		if k == "big" && d.optResult[i] {
+			k = "obig"
+		}
 		kinds = append(kinds, k)
 	}
 	tup := func(ks []string) string {
@@ -2906,7 +3257,7 @@ func (d *d8) retType() string {
 func passDrivers(pkgs []*Pkg) (string, []string, []string) {
 	var errs, warns []string
 	var sb strings.Builder
-	sb.WriteString("import Secp.Model.Schnorr\nimport Secp.Model.Ecdsa\nimport Secp.Model.PrivKey\nimport Secp.Model.Adaptor\nimport Secp.Model.DriverRt\n/- GENERATED by tools/gotr (pass T8) from /repo — do not edit. -/\nset_option linter.unusedVariables false\nnamespace Secp.Gen.Drivers\nopen Secp.Spec Secp.Model\n\n")
+	sb.WriteString("import Secp.Model.Schnorr\nimport Secp.Model.Ecdsa\nimport Secp.Model.PrivKey\nimport Secp.Model.Adaptor\nimport Secp.Model.Nonce\nimport Secp.Model.DriverRt\n/- GENERATED by tools/gotr (pass T8) from /repo — do not edit. -/\nset_option linter.unusedVariables false\nnamespace Secp.Gen.Drivers\nopen Secp.Spec Secp.Model\n\n")
 	pv := map[string]string{}
 	var body strings.Builder
 	for i := range d8entries {
@@ -2931,7 +3282,7 @@ func passDrivers(pkgs []*Pkg) (string, []string, []string) {
 			continue
 		}
 		d := &d8{pkgs: pkgs, p: p, fn: ent.key, ent: ent, env: map[types.Object]*dloc{}, known: map[types.Object]bool{}, stype: map[string]string{},
-			loopVar: map[types.Object]string{}, pv: pv, errTerm: map[types.Object]string{}, facts: map[string]bool{}, lenDef: map[string]string{}}
+			loopVar: map[types.Object]string{}, pv: pv, errTerm: map[types.Object]string{}, facts: map[string]bool{}, lenDef: map[string]string{}, extCopies: map[string]bool{}}
 		d.results = p.info.Defs[fd.Name].Type().(*types.Signature).Results()
 		var psig []string
 		var paramNames []string
@@ -2971,6 +3322,38 @@ func passDrivers(pkgs []*Pkg) (string, []string, []string) {
 			for _, nm := range fld.Names {
 				addParam(nm)
 			}
+		}
+		d.optResult = map[int]bool{}
+		{
+			nilable := map[string]bool{}
+			ast.Inspect(fd.Body, func(n ast.Node) bool {
+				if ds, ok := n.(*ast.DeclStmt); ok {
+					if gd, ok := ds.Decl.(*ast.GenDecl); ok && gd.Tok == token.VAR {
+						for _, sp := range gd.Specs {
+							vs := sp.(*ast.ValueSpec)
+							if len(vs.Values) == 0 {
+								for _, nm := range vs.Names {
+									if o := p.info.Defs[nm]; o != nil {
+										if _, isPtr := o.Type().(*types.Pointer); isPtr {
+											if k, _ := d.kindOf(o.Type()); k == "big" {
+												nilable[nm.Name] = true
+											}
+										}
+									}
+								}
+							}
+						}
+					}
+				}
+				if rs, ok := n.(*ast.ReturnStmt); ok {
+					for i, r := range rs.Results {
+						if id, ok := r.(*ast.Ident); ok && nilable[id.Name] {
+							d.optResult[i] = true
+						}
+					}
+				}
+				return true
+			})
 		}
 		var outName string
 		outName = ent.out
